@@ -592,8 +592,8 @@ Section Build.
     - apply float_from_int_exact.
     - apply float_from_uint_exact. exact Hwf.
     - apply float_from_bigint_exact.
-    - destruct f as [|s|s m e]; try discriminate. destruct s; try discriminate. destruct m; try discriminate.
-      intro H; inversion H. cbn. lia.
+    - destruct f as [|s|s m e]; try discriminate. destruct m; try discriminate.
+      intro H; inversion H. cbn [stored_val fdec_val]. rewrite sgn_0. apply mval_eq_zero.
   Qed.
 
   Lemma build_bigint_exact c v :
